@@ -27,14 +27,48 @@ export function* generate({ tier, seed }) {
     else { p2 = `, ctx: { emit: ${/^[A-Z]\w*$/.test(e) ? e : `(${e})`} }`; expectEmits = false; }
     const propsT = rng.bool(0.5) ? '{ a?: string }' : '{}';
     const setup = fnForm === 'arrow' ? `(props: ${propsT}${p2}) => () => null` : `function (props: ${propsT}${p2}) { return () => null; }`;
-    const src = assembleModule(rng, { decls: out.decls, call: `defineComponent(${setup})`, imports: ['defineComponent', 'SetupContext'], order, local });
+    // options the user wrote by hand (none of them is `emits`): deriving emits does not depend on them
+    const userOpts = rng.bool(0.3) ? rng.pick(['{ props: ["modelValue"] }', '{ props: { a: String }, inheritAttrs: false }', '{ name: "Named" }', '{ inheritAttrs: false }', '{ props: {} }', '{ "props": ["x"], name: "N" }']) : null;
+    const src = assembleModule(rng, { decls: out.decls, call: `defineComponent(${setup}${userOpts ? ', ' + userOpts : ''})`, imports: ['defineComponent', 'SetupContext'], order, local });
     yield {
       gid: `C19-${i}`, src, syntax: 'tsx', spec: { names: expectEmits ? names : null },
-      feature: `${out.ops.join('+')}|k=${k}|${order}|${local || 'module'}|${second}|${fnForm}|${names.some((x) => /[:-]/.test(x)) ? 'punct' : 'plain'}`,
+      feature: `${out.ops.join('+')}|k=${k}|${order}|${local || 'module'}|${second}|${fnForm}|${names.some((x) => /[:-]/.test(x)) ? 'punct' : 'plain'}|${userOpts ? 'userOpts:' + userOpts.replace(/[^a-z]/gi, '').slice(0, 12) : 'noOpts'}`,
       variants: [{ vid: 'v0', options: { resolveType: true } }],
     };
   }
   yield* sharedBaseModules(rng, tier);
+  // the empty event set: `emits: []` is still what E declares
+  let ei = 0;
+  for (const [decls, e] of [['', '{}'], ['interface E0 {}', 'E0'], ['type E0 = {};', 'E0'], ['interface A0 {}\ninterface E0 extends A0 {}', 'E0'], ['type A0 = {};\ntype E0 = A0 & {};', 'E0'], ['export interface E0 {}', 'E0']]) for (const order of ['before', 'after']) {
+    const call = `export const Comp = defineComponent((props: {}, ctx: SetupContext<${e}>) => () => null);`;
+    const src = `import { defineComponent, SetupContext } from "vue";\n${order === 'before' ? decls + '\n' + call : call + '\n' + decls}\n`;
+    yield { gid: `C19-empty-${ei++}`, src, syntax: 'tsx', spec: { names: [] }, feature: `emptySet|${e}|${decls.replace(/\W+/g, '').slice(0, 20)}|${order}`, variants: [{ vid: 'v0', options: { resolveType: true } }] };
+  }
+  // same-named literal-union aliases (and interfaces) in different scopes, several components per module
+  let si = 0;
+  const q = (x) => JSON.stringify(x);
+  for (let i = 0; i < (tier === 'quick' ? 300 : 4000); i++) {
+    const pool = rng.shuffle(EVENT_NAMES);
+    const outer = pool.slice(0, 2), inner = pool.slice(2, 4 + rng.int(2)), inner2 = pool.slice(5, 7);
+    const use = rng.pick([(n) => `(e: ${n}) => void`, (n) => `{ (e: ${n}): void }`, (n) => `{ (e: ${n}, v: number): void; (e: "always"): void }`]);
+    const extra = use('X').includes('always') ? ['always'] : [];
+    const aliasName = rng.pick(['Names', 'Events', 'E']);
+    const declOf = (names) => `type ${aliasName} = ${names.map(q).join(' | ')};`;
+    const comp = (ind, ret) => `${ind}${ret}defineComponent((props: {}, ctx: SetupContext<${use(aliasName)}>) => () => null);`;
+    const form = rng.pick(['moduleAndFn', 'twoFactories', 'moduleAndArrow']);
+    const L = ['import { defineComponent, SetupContext } from "vue";'];
+    let multi;
+    if (form === 'twoFactories') {
+      L.push('function makeA() {', '  ' + declOf(inner), comp('  ', 'return '), '}', 'function makeB() {', '  ' + declOf(inner2), comp('  ', 'return '), '}', 'export const A = makeA();', 'export const B = makeB();');
+      multi = [[...inner, ...extra], [...inner2, ...extra]];
+    } else {
+      const fnOpen = form === 'moduleAndFn' ? 'function make() {' : 'const make = () => {';
+      const innerBlock = [fnOpen, '  ' + declOf(inner), comp('  ', 'return '), form === 'moduleAndFn' ? '}' : '};', 'export const Inner = make();'];
+      const outerBlock = [declOf(outer), comp('', 'export const Outer = ')];
+      if (rng.bool()) { L.push(...outerBlock, ...innerBlock); multi = [[...outer, ...extra], [...inner, ...extra]]; } else { L.push(...innerBlock, ...outerBlock); multi = [[...inner, ...extra], [...outer, ...extra]]; }
+    }
+    yield { gid: `C19-scope-${si++}`, src: L.join('\n') + '\n', syntax: 'tsx', spec: { multi }, feature: `scopedAliases|${form}|${aliasName}|${i % 40}`, variants: [{ vid: 'v0', options: { resolveType: true } }] };
+  }
 }
 
 function* sharedBaseModules(rng, tier) {
